@@ -235,6 +235,10 @@ type StreamConn struct {
 	Touched    []string // operations made on the connection while Frozen, at a later simulated instant than the freeze
 	FrozenAt   time.Time
 	FailWrites int // inject: fail the next n writes after accepting a prefix
+	// FailWriteNth > 0: this side's n-th Write (1-based) fails after accepting a prefix of what it was given
+	// (possibly nothing); the writes after it are served as usual.
+	FailWriteNth int
+	writeN       int
 	// TransientAt > 0: when exactly that many octets have been handed to this side's reader, its next
 	// Read fails once with a temporary, non-timeout error (an interrupted system call); the read before
 	// is cut short so that it ends there. Reading carries on afterwards as if nothing had happened.
@@ -431,6 +435,10 @@ func (o *writeOp) Done(now time.Time) {
 		o.err = ErrPipe
 	default:
 		p := o.p
+		c.writeN++
+		if c.FailWriteNth > 0 && c.writeN == c.FailWriteNth {
+			c.FailWrites++
+		}
 		if c.FailWrites > 0 {
 			c.FailWrites--
 			k := c.n.K.Env.IntN(len(p) + 1)
